@@ -53,7 +53,7 @@ func listAll(ds *server.Dataset, page int) ([]*server.Entity, error) {
 	}
 	var all []*server.Entity
 	from := ""
-	for guard := 0; guard < 100000; guard++ {
+	for guard := 0; guard < 400; guard++ { // (a dataset of these profiles has a few dozen entities at most)
 		r, err := ds.GetEntities(from, page)
 		if err != nil {
 			return nil, err
